@@ -6,7 +6,7 @@
    This file holds statements only. *)
 From Coq Require Import List Arith NArith Bool Lia.
 Import ListNotations.
-Require Import MText MRound MRound2 MkModel MkEval MkEvalP MkGroupsP MkFmtP MkShapeP MkRoundP MkTreeP.
+Require Import MText MRound MRound2 MkModel MkEval MkEvalP MkGroupsP MkFmtP MkShapeP MkRoundP MkTreeP MkLexP MkLayoutP MkTextP.
 Require Names.
 Open Scope N_scope.
 
@@ -93,9 +93,22 @@ Print Assumptions C09_variant_extra_spelling.
 Theorem C09_variant_variable_spelling : forall w, In w var_alts -> In (norm_var w) canon_vars.
 Proof. exact norm_var_canon. Qed.
 Print Assumptions C09_variant_variable_spelling.
-(* whitespace and quote style: NOT PROVED as a theorem over arbitrary layouts unless C09_layout below is present; the
-   canonical layout is proved (C09_str_roundtrip), arbitrary layouts are covered by the correspondence streams
-   'str', 'eq-variants' and the law 'law.k.variants'. *)
+(* whitespace, quote style, spelling of variables: RList m t says "t is a text of the structure m" (any runs of spaces/tabs
+   where the grammar allows them, either quote, any spelling of the alternation; MkLayoutP.v).  Two texts of one structure
+   construct the very same Marker - hence equal, same hash, same str *)
+Theorem C09_variant_layout m t1 t2 g0 g3 nl g0' g3' nl' : RList m t1 -> RList m t2 ->
+  is_ws_str g0 = true -> is_ws_str g3 = true -> nl = [] \/ nl = [10] ->
+  is_ws_str g0' = true -> is_ws_str g3' = true -> nl' = [] \/ nl' = [10] ->
+  Marker (g0 ++ t1 ++ g3 ++ nl) = Marker (g0' ++ t2 ++ g3' ++ nl').
+Proof. exact (layout_variants m t1 t2 g0 g3 nl g0' g3' nl'). Qed.
+Print Assumptions C09_variant_layout.
+(* all variant kinds together: texts of structures that agree after extra-normalisation and dissolving single-element groups
+   (redundant / doubled parentheses) are accepted and are equal markers *)
+Theorem C09_variants_equal m1 m2 t1 t2 : RList m1 t1 -> RList m2 t2 -> lit_class m1 = LOk -> lit_class m2 = LOk ->
+  peel_top (norm_l m1) = peel_top (norm_l m2) ->
+  exists a b, Marker t1 = MOk a /\ Marker t2 = MOk b /\ marker_eq a b = true.
+Proof. exact (layout_variants_eq m1 m2 t1 t2). Qed.
+Print Assumptions C09_variants_equal.
 
 (* non-vacuity: a doubly parenthesised or-group holding a literal with a double quote and an extra comparison with an
    un-normalised name on the left, and-ed with a parenthesised single comparison: the text printed differs from the input
